@@ -215,7 +215,7 @@ let () =
               let s' = { st_store = st; st_queue = List.map n_of_int wi.wq; st_hits = h; st_misses = m } in
               world := List.mapi (fun i x -> if i = widx then { x with ce_used = true; ce_st = s' } else x) !world) instances in
       (match kind with
-       | "tag" | "event" | "dep" | "invc" | "invcn" | "invw" | "invall" -> inval_seen := true
+       | "tag" | "event" | "dep" | "invc" | "invcn" | "invw" | "invwb" | "invall" -> inval_seen := true
        | _ -> ());
       (match kind, rest with
        | "call", f :: x :: tid :: ok :: v :: len :: inv :: cif :: _ ->
@@ -274,6 +274,10 @@ let () =
              if invlog <> "-" && not invb && exec > 0 then fail "inv" (Printf.sprintf "f%d x=%d: fresh entry recomputed" f x);
              let fits = (match fn.w.w_cfg.maxmem with None -> true | Some m -> size <= int_of_n m) in
              let newest_survives = fn.w.w_cfg.maxmem = None || fn.fl = "a" || fn.w.w_cfg.pol = FIFO || fn.w.w_cfg.pol = LRU in
+             if invlog <> "-" && invb && exec > 0 && impl_store_decision fn okb cifb && not fits then
+               (match stored_after with
+                | Some _ -> fail "inv" (Printf.sprintf "f%d x=%d: the stale entry is still stored after a refresh whose result is too large to be cached" f x)
+                | None -> ());
              if invlog <> "-" && invb && exec > 0 && impl_store_decision fn okb cifb && fits && newest_survives then
                (match stored_after with
                 | Some (v, _, _) when v = int_of_n (enc body) -> ()
@@ -321,7 +325,9 @@ let () =
                 let l = int_of_n l in
                 if List.length post_store > l then
                   fail "limit" (Printf.sprintf "f%d holds %d entries, limit is %d" f (List.length post_store) l);
-                if cfgc.maxmem = None && cfgc.ttl = None then begin
+                (* entries leave a cache only through a lookup of their own key (expiry), an invalidation or an
+                   eviction: during a call for x, keys other than x can only go by eviction, with or without a ttl *)
+                if cfgc.maxmem = None then begin
                   let overflow = exec > 0 && List.mem_assoc x post_store && not (List.mem_assoc x prev_store) && List.length prev_store >= l in
                   if overflow && List.length gone <> 1 then
                     fail "limit" (Printf.sprintf "f%d x=%d: overflowing store removed %d entries" f x (List.length gone));
@@ -329,8 +335,16 @@ let () =
                     fail "limit" (Printf.sprintf "f%d x=%d: a store that did not overflow removed %d entries" f x (List.length gone))
                 end
               | None ->
-                if cfgc.maxmem = None && cfgc.ttl = None && gone <> [] then
-                  fail "limit" (Printf.sprintf "f%d x=%d: an entry disappeared from a cache without limits" f x))
+                if cfgc.maxmem = None && gone <> [] then
+                  fail "limit" (Printf.sprintf "f%d x=%d: an entry disappeared from a cache without limits" f x));
+             (* structure (the invariant behind the limit theorem): the queue holds every stored key exactly once *)
+             (match this_inst with
+              | Some wi ->
+                let qs = List.sort compare wi.wq and ks = List.sort compare (List.map fst wi.wstore) in
+                if qs <> ks then
+                  fail "limit" (Printf.sprintf "f%d: the order queue [%s] and the stored keys [%s] disagree" f
+                                  (String.concat "," (List.map string_of_int wi.wq)) (String.concat "," (List.map string_of_int ks)))
+              | None -> ())
            end;
            if has "mem" then begin
              (match cfgc.maxmem with
@@ -676,6 +690,24 @@ let () =
          end;
          if rl <> ["bool"; (if b then "1" else "0")] then
            set_verdict (Printf.sprintf "MISMATCH %d invw f%s model=%b impl=%s" !evidx f b !got_r)
+       | "invwb", f :: k :: _ ->
+         (* a budgeted predicate: which keys it accepts depends on the order in which the cache shows them;
+            the model removes the keys that disappeared from the implementation's store, so any disagreement
+            between store and queue shows in the comparison; the oracle: at most K entries went, and only
+            from this cache *)
+         let fi = int_of_string f and budget = int_of_string k in
+         let gone = (match List.find_opt (fun wi -> wi.wf = fi && wi.wtid = -1) instances, Hashtbl.find_opt prev_inst (fi, -1) with
+             | Some wi, Some p -> List.filter (fun (kk, _) -> not (List.mem_assoc kk wi.wstore)) p.wstore
+             | _ -> []) in
+         let (w', b) = invalidate_with (n_of_int (intern fns.(fi).name)) (List.map (fun (kk, _) -> n_of_int kk) gone) !world in
+         set_world w'; nontrivial := true;
+         if has "frame" || has "limit" then begin
+           check_frame (if has "frame" then "frame" else "limit") [(fi, -1)] instances;
+           if List.length gone > budget then
+             fail (if has "frame" then "frame" else "limit") (Printf.sprintf "invalidate_with on f%d removed %d entries, its predicate accepted at most %d keys" fi (List.length gone) budget)
+         end;
+         if rl <> ["bool"; (if b then "1" else "0")] then
+           set_verdict (Printf.sprintf "MISMATCH %d invwb f%s model=%b impl=%s" !evidx f b !got_r)
        | "invwn", name :: _ ->
          let (w', b) = invalidate_with (n_of_int (intern name)) [] !world in
          set_world w';
